@@ -52,12 +52,27 @@ def _sh1_sites(shapes, fi, r):
     return sites
 
 
+def _only_called_from(model, fi, quals):
+    """A private helper whose every use in the package is a call from one of `quals` (e.g. the state-unpacking helper of
+    __setstate__) shares their contract."""
+    if not fi.name.startswith("_") or (fi.name.startswith("__") and fi.name.endswith("__")):
+        return False
+    users = set()
+    for other in model.all_funcs(helpers=True):
+        if other is fi:
+            continue
+        for n in ast.walk(other.node):
+            if (isinstance(n, ast.Attribute) and n.attr == fi.name) or (isinstance(n, ast.Name) and n.id == fi.name):
+                users.add(other.qual)
+    return bool(users) and users <= set(quals)
+
+
 def sh1(ctx: Ctx, shapes: Shapes, funcs=None, floor=25):
     rule = "SH1"
     ctx.rule(rule, floor=floor, what="every constant-index subscript on a str/list/tuple is dominated by a non-emptiness fact")
     model = ctx.model
     for fi in (funcs or functions(model)):
-        if fi.qual in PICKLE_PROTOCOL:
+        if fi.qual in PICKLE_PROTOCOL or _only_called_from(shapes.model, fi, PICKLE_PROTOCOL):
             continue
         r = analyze(model, fi)
         ctx.functions.add(fi.qual)
